@@ -1367,6 +1367,10 @@ def c16(ctx):
               dist={'graph_space_total': total, 'loop_graphs_keep_going': loops, 'loop_error_raised': raised,
                     'cross_device_errors': xdev}, exhaustive=(not quick))
     cli_xdev_several(ctx)
+    # the device check of the upward search for the top-level Manifest (find_top_level.py, one of the anchors of this property): in
+    # one-file-system mode a Manifest on another device - the directory, or the file behind a link - is not what the search returns
+    import p_top
+    p_top.c15(ctx, device_only=True)
 
 
 def cli_xdev_several(ctx):
